@@ -10,10 +10,10 @@ import (
 func init() { runners["C08"] = runC08 }
 
 type C08Case struct {
-	Seed  uint64 `json:"seed"`
-	Shape string `json:"shape"` // edits | identical | renamed | duplicated | pair
-	K     int    `json:"k,omitempty"`
-	Size  int    `json:"size,omitempty"`
+	Seed  uint64         `json:"seed"`
+	Shape string         `json:"shape"` // edits | identical | renamed | duplicated | pair
+	K     int            `json:"k,omitempty"`
+	Size  int            `json:"size,omitempty"`
 	Opts  wvlib.PairOpts `json:"opts,omitempty"`
 }
 
